@@ -31,6 +31,7 @@ import (
 	"fmt"
 	"go/token"
 	"go/types"
+	"os"
 	"sort"
 	"strings"
 
@@ -53,6 +54,9 @@ type WriteSite struct {
 	Line  int
 	Col   int
 	Func  string
+	// Chain: for a write that is not fresh, the call chain on which least is held: starting at the writing function, the
+	// call site (of those that reach the current function) with the fewest write-mode locks, and so on upwards
+	Chain []string
 }
 
 type Guards struct {
@@ -92,10 +96,13 @@ type wdAn struct {
 	fns      []*ssa.Function
 	isFn     map[*ssa.Function]bool
 	siteTgts map[ssa.CallInstruction][]*ssa.Function
-	release  map[*ssa.Function]set // net releases of the body itself
-	relStar  map[*ssa.Function]set // ... and of everything it may call synchronously
+	viaLeave map[ssa.CallInstruction]map[*ssa.Function]bool // targets reached only through code outside the module
+	release  map[*ssa.Function]set                          // net releases of the body itself
+	relStar  map[*ssa.Function]set                          // ... and of everything it may call synchronously
 	entry    map[*ssa.Function]wdHeld
 	extern   map[*ssa.Function]bool // has a caller outside the module, or none
+	bound    map[*ssa.Function]bool // function literals bound to their one call site (see computeBound)
+	callers  map[*ssa.Function][]wdCaller
 	universe []string
 }
 
@@ -162,6 +169,9 @@ func (w *wdAn) targets(fn *ssa.Function, site ssa.CallInstruction) []*ssa.Functi
 		}
 	}
 	if leaves {
+		// code outside the module may run these later or on another goroutine (time.AfterFunc, WaitGroup.Go): they count
+		// as callees for what the call may release, but enter with nothing held
+		direct := len(out)
 		for _, arg := range cc.Args {
 			if fv := funcValue(arg); fv != nil {
 				add(fv)
@@ -169,6 +179,12 @@ func (w *wdAn) targets(fn *ssa.Function, site ssa.CallInstruction) []*ssa.Functi
 		}
 		for _, m := range w.a.boxedFormatters(fn) {
 			add(m)
+		}
+		if len(out) > direct {
+			w.viaLeave[site] = map[*ssa.Function]bool{}
+			for _, t := range out[direct:] {
+				w.viaLeave[site][t] = true
+			}
 		}
 	}
 	w.siteTgts[site] = out
@@ -310,7 +326,76 @@ func (w *wdAn) computeReleases() {
 	}
 }
 
+// wdBoundArgs: the function literals that the call x hands directly to call-only parameters of its static callee g (a
+// func-typed parameter that g only calls, or hands on to such a parameter: lockgraph.go computeCallOnly).  Such a literal
+// runs only inside this call, synchronously.
+func (w *wdAn) wdBoundArgs(x ssa.CallInstruction) (*ssa.Function, []*ssa.Function) {
+	cc := x.Common()
+	g := cc.StaticCallee()
+	if g == nil || !w.isFn[g] {
+		return nil, nil
+	}
+	var out []*ssa.Function
+	for i, arg := range cc.Args {
+		if i < len(g.Params) && w.a.callOnly[g.Params[i]] {
+			if fv := funcValue(arg); fv != nil && fv.Parent() != nil {
+				out = append(out, fv)
+			}
+		}
+	}
+	return g, out
+}
+
+// computeBound: a function literal is BOUND when its only use in the function that contains it is as a direct argument
+// for a call-only parameter of a module function.  Every execution of a bound literal happens inside that call, so its
+// entry set is what the caller holds at the call minus what the callee may release - whatever other closures the
+// callee's parameter receives elsewhere.  (Precision only: without it a shared helper such as tio.SegmentSuperpacket
+// intersects the held sets of all its callers.)
+func (w *wdAn) computeBound() {
+	w.bound = map[*ssa.Function]bool{}
+	for _, fn := range w.fns {
+		uses := map[*ssa.Function]int{}   // operand uses of each literal (directly or as its MakeClosure)
+		direct := map[*ssa.Function]int{} // ... of which: direct argument for a call-only parameter
+		var ops []*ssa.Value
+		for _, b := range fn.Blocks {
+			for _, ins := range b.Instrs {
+				if mc, ok := ins.(*ssa.MakeClosure); ok {
+					if f, ok := mc.Fn.(*ssa.Function); ok && mc.Referrers() != nil {
+						for _, r := range *mc.Referrers() {
+							if _, dbg := r.(*ssa.DebugRef); !dbg {
+								uses[f]++
+							}
+						}
+					}
+					continue
+				}
+				ops = ins.Operands(ops[:0])
+				for _, o := range ops {
+					if o != nil && *o != nil {
+						if f, ok := (*o).(*ssa.Function); ok && f.Parent() == fn {
+							uses[f]++
+						}
+					}
+				}
+				if ci, ok := ins.(ssa.CallInstruction); ok {
+					if _, fvs := w.wdBoundArgs(ci); fvs != nil {
+						for _, f := range fvs {
+							direct[f]++
+						}
+					}
+				}
+			}
+		}
+		for f, n := range direct {
+			if w.isFn[f] && f.Parent() == fn && n == uses[f] {
+				w.bound[f] = true
+			}
+		}
+	}
+}
+
 func (w *wdAn) computeEntries() {
+	w.computeBound()
 	// the universe of keys: every class that is locked anywhere, in both modes
 	u := set{}
 	for _, k := range w.a.order {
@@ -342,6 +427,9 @@ func (w *wdAn) computeEntries() {
 				}
 			}
 		}
+		if w.bound[fn] {
+			ext = false
+		}
 		w.extern[fn] = ext
 		if ext {
 			w.entry[fn] = wdHeld{}
@@ -351,8 +439,37 @@ func (w *wdAn) computeEntries() {
 	}
 	for round := 0; round < 200; round++ {
 		next := map[*ssa.Function]wdHeld{}
+		add := func(t *ssa.Function, held wdHeld) {
+			h := wdHeld{}
+			for k := range held {
+				h[k] = nil
+			}
+			if cur, ok := next[t]; ok {
+				wdMeet(cur, h)
+			} else {
+				next[t] = h
+			}
+		}
+		// the literals bound at the call x of fn: entered with what fn holds there, minus what the callee may release
+		bind := func(fn *ssa.Function, x ssa.CallInstruction, held wdHeld) {
+			g, fvs := w.wdBoundArgs(x)
+			for _, fv := range fvs {
+				if !w.bound[fv] {
+					continue
+				}
+				h := wdHeld{}
+				if _, isCall := x.(*ssa.Call); isCall {
+					for k := range held {
+						if !w.relStar[g][k] {
+							h[k] = nil
+						}
+					}
+				}
+				add(fv, h)
+			}
+		}
 		contribute := func(t *ssa.Function, held wdHeld) {
-			if w.extern[t] {
+			if w.extern[t] || w.bound[t] {
 				return
 			}
 			h := wdHeld{}
@@ -367,6 +484,9 @@ func (w *wdAn) computeEntries() {
 		}
 		for _, fn := range w.fns {
 			w.flow(fn, w.entry[fn], func(ins ssa.Instruction, held wdHeld) {
+				if ci, ok := ins.(ssa.CallInstruction); ok {
+					bind(fn, ci, held)
+				}
 				switch x := ins.(type) {
 				case *ssa.Go:
 					for _, t := range w.targets(fn, x) {
@@ -381,7 +501,11 @@ func (w *wdAn) computeEntries() {
 				case ssa.CallInstruction:
 					if op, _ := lockOp(x.Common()); op == 0 {
 						for _, t := range w.targets(fn, x) {
-							contribute(t, held)
+							if w.viaLeave[x][t] {
+								contribute(t, wdHeld{})
+							} else {
+								contribute(t, held)
+							}
 						}
 					}
 				}
@@ -413,6 +537,42 @@ func (w *wdAn) computeEntries() {
 			break
 		}
 	}
+	// debugging aid: WD_DEBUG=<substring of a function name> prints the entry set of the matching functions and
+	// what each of their call sites holds
+	if dbg := os.Getenv("WD_DEBUG"); dbg != "" {
+		for _, fn := range w.fns {
+			if strings.Contains(fn.String(), dbg) {
+				fmt.Fprintf(os.Stderr, "WD %s extern=%v entry=%v\n", fn.String(), w.extern[fn], wdKeys(w.entry[fn]))
+				if n := w.a.cg.Nodes[fn]; n != nil {
+					for _, e := range n.In {
+						if e.Caller != nil && e.Caller.Func != nil {
+							fmt.Fprintf(os.Stderr, "WD    in-edge from %s (module function: %v)\n", e.Caller.Func.String(), w.isFn[e.Caller.Func])
+						}
+					}
+				}
+			}
+		}
+		for _, fn := range w.fns {
+			w.flow(fn, w.entry[fn], func(ins ssa.Instruction, held wdHeld) {
+				if ci, ok := ins.(ssa.CallInstruction); ok {
+					for _, t := range w.targets(fn, ci) {
+						if strings.Contains(t.String(), dbg) {
+							fmt.Fprintf(os.Stderr, "WD    site in %s (%T) -> %s holds %v\n", fn.String(), ins, t.String(), wdKeys(held))
+						}
+					}
+				}
+			})
+		}
+	}
+}
+
+func wdKeys(h wdHeld) []string {
+	var ks []string
+	for k := range h {
+		ks = append(ks, k)
+	}
+	sort.Strings(ks)
+	return ks
 }
 
 func wdStructOf(ptr types.Type) (*types.Named, *types.Struct) {
@@ -579,7 +739,88 @@ func wdFresh(base ssa.Value, at ssa.Instruction) bool {
 	return true
 }
 
+type wdCaller struct {
+	from  *ssa.Function
+	where string
+	heldW []string
+}
+
+// computeCallers records, with the final entry sets, every call site that enters a function and what it holds in
+// write mode (the same contributions computeEntries intersects) - for the explanation attached to a site.
+func (w *wdAn) computeCallers() {
+	w.callers = map[*ssa.Function][]wdCaller{}
+	for _, fn := range w.fns {
+		fn := fn
+		w.flow(fn, w.entry[fn], func(ins ssa.Instruction, held wdHeld) {
+			ci, ok := ins.(ssa.CallInstruction)
+			if !ok {
+				return
+			}
+			if op, _ := lockOp(ci.Common()); op != 0 {
+				return
+			}
+			_, sync := ins.(*ssa.Call)
+			p := w.a.prog.Fset.Position(ins.Pos())
+			where := fmt.Sprintf("%s:%d", wdRelFile(p.Filename, w.a.root), p.Line)
+			if !sync {
+				where += " (go/defer)"
+			}
+			rec := func(t *ssa.Function, minus set) {
+				c := wdCaller{from: fn, where: where}
+				if w.viaLeave[ci][t] {
+					c.where += " (through code outside the module)"
+				} else if sync {
+					for k := range held {
+						if strings.HasPrefix(k, "W:") && !minus[k] {
+							c.heldW = append(c.heldW, k[2:])
+						}
+					}
+					sort.Strings(c.heldW)
+				}
+				w.callers[t] = append(w.callers[t], c)
+			}
+			g, fvs := w.wdBoundArgs(ci)
+			for _, fv := range fvs {
+				if w.bound[fv] {
+					rec(fv, w.relStar[g])
+				}
+			}
+			for _, t := range w.targets(fn, ci) {
+				if !w.bound[t] {
+					rec(t, nil)
+				}
+			}
+		})
+	}
+}
+
+func (w *wdAn) chain(fn *ssa.Function) []string {
+	var out []string
+	seen := map[*ssa.Function]bool{fn: true}
+	for step := 0; step < 8; step++ {
+		cs := w.callers[fn]
+		if len(cs) == 0 {
+			break
+		}
+		best := 0
+		for i, c := range cs {
+			if len(c.heldW) < len(cs[best].heldW) || (len(c.heldW) == len(cs[best].heldW) && c.where < cs[best].where) {
+				best = i
+			}
+		}
+		c := cs[best]
+		out = append(out, fmt.Sprintf("%s called at %s in %s holding %v", fn.String(), c.where, c.from.String(), c.heldW))
+		if seen[c.from] {
+			break
+		}
+		seen[c.from] = true
+		fn = c.from
+	}
+	return out
+}
+
 func (w *wdAn) sites() *Guards {
+	w.computeCallers()
 	imm := map[string]bool{}
 	for _, t := range wdImmutableTypes {
 		imm[t] = true
@@ -667,6 +908,9 @@ func (w *wdAn) sites() *Guards {
 			}
 			sort.Strings(s.HeldW)
 			sort.Strings(s.HeldR)
+			if !s.Fresh {
+				s.Chain = w.chain(fn)
+			}
 			p := w.a.prog.Fset.Position(ins.Pos())
 			if !p.IsValid() {
 				if fa, ok := base.(ssa.Instruction); ok {
@@ -721,7 +965,8 @@ func wdRelFile(file, root string) string {
 
 // guards computes the write sites of the module (called by Analyze).
 func (a *analysis) guards(fns []*ssa.Function) *Guards {
-	w := &wdAn{a: a, fns: fns, isFn: map[*ssa.Function]bool{}, siteTgts: map[ssa.CallInstruction][]*ssa.Function{}}
+	w := &wdAn{a: a, fns: fns, isFn: map[*ssa.Function]bool{}, siteTgts: map[ssa.CallInstruction][]*ssa.Function{},
+		viaLeave: map[ssa.CallInstruction]map[*ssa.Function]bool{}}
 	for _, fn := range fns {
 		w.isFn[fn] = true
 	}
